@@ -268,7 +268,7 @@ def unit_foreign(a):
 
 # ------------------------------------------------------------------ header spellings and positions
 def g_header(s):
-    ws = ["", " ", "\t", "  ", "\xa0", "　"]
+    ws = ["", " ", "\t", "  ", "\xa0", "　", " " * 23, " " * 24, " " * 31, "\t" * 33, " " * 100, " " * 1000]
     word = s.choice(["language", "language", "language", "Language", "languag", "lang uage", "LANGUAGE"])
     name = s.choice(["fr", "fr", "en", "no", "en-lol", "en-Scouse", "sr-Cyrl", "zh-CN", "zz", "xx-yy", "f1", "fr x", "", "fr,en", "_", "-", "émoji",
                      "[fr]", "`en`", "en^", "fr\\", "es-419", "fr2", "français", "en.us", "EN", "Fr", "en_au", "en-au", "en_lol", "sr_Cyrl", "zh_CN", "en-tx", "en_tx",
@@ -339,6 +339,15 @@ def check_header(case, stats):
 
 def unit_header(a):
     stats = Stats()
+    if a["shard"] == 0:
+        # every dialect code in other spellings (case, underscore, without the hyphen, region only): a code is known only as listed
+        cases = []
+        for d in sorted(DIALECTS):
+            for v in sorted({d.lower(), d.upper(), d.swapcase(), d.title(), d.capitalize(), d.replace("-", "_"), d.replace("-", ""), d.split("-")[-1], d + "-", d + "-" + d, d[:1], d + d[-1:]}):
+                if v and v != d:
+                    for i, pos in enumerate(("top", "after-comment")):
+                        cases.append({"sub": "header", "header": ["#language: ", "# language:"][i] + v, "position": pos, "default": "en" if d != "en" else "fr", "reuse": i})
+        sweep(stats, cases, check_header)
     strat = st.binary(min_size=40, max_size=40).map(lambda b: g_header(Src(b)))
     hyp(stats, strat, check_header, a["n"], shard_seed(a["seed"], a["shard"], 5))
     return stats
